@@ -37,19 +37,25 @@ structure Upd where
 /-- Scheduled updates, newest first. -/
 abbrev Pending := List Upd
 
-mutual
-/-- Schedule `lhs <= v` where `v` is the `selfWidth lhs`-bit value of the right-hand side. -/
-def nbaAssign : VExpr → Int → Pending → Pending
-  | .id i w _, v, p => ⟨i, 0, w, v⟩ :: p
-  | .psel (.id i _ _) hi lo, v, p => ⟨i, lo, hi - lo + 1, v⟩ :: p
-  | .bsel (.id i _ _) k, v, p => ⟨i, k, 1, v⟩ :: p
-  | .concat l, v, p => nbaConcat l v p
+/-- Schedule an update of an identifier or a bit/part select of an identifier with the low bits of `v`. -/
+def nbaLeaf : VExpr → Int → Pending → Pending
+  | .id i w _, v, p => ⟨i, 0, w, tn w v⟩ :: p
+  | .psel (.id i _ _) hi lo, v, p => ⟨i, lo, hi - lo + 1, tn (hi - lo + 1) v⟩ :: p
+  | .bsel (.id i _ _) k, v, p => ⟨i, k, 1, tn 1 v⟩ :: p
   | _, _, p => p
-/-- `{e0, e1, …} <= v`: `e0` receives the most significant bits. -/
-def nbaConcat : List VExpr → Int → Pending → Pending
+
+/-- Elements of a concatenation target, least significant element first. -/
+def nbaConcatL : List VExpr → Int → Pending → Pending
   | [], _, p => p
-  | e :: es, v, p => nbaConcat es (tn (concatWidth es) v) (nbaAssign e (v / p2 (concatWidth es)) p)
-end
+  | x :: xs, v, p => nbaConcatL xs (v / p2 (selfWidth x)) (nbaLeaf x v p)
+
+/-- Schedule `lhs <= v`.  A concatenation target `{e0, …, ek}` (flat: identifiers and selects) receives the
+    value split at the element widths, `ek` taking the least significant bits; the parts of one concatenation
+    are scheduled from the least significant end (the standard leaves the order among the parts of a single
+    lvalue open; it only matters if the same bits occur twice). -/
+def nbaAssign : VExpr → Int → Pending → Pending
+  | .concat l, v, p => nbaConcatL l.reverse v p
+  | e, v, p => nbaLeaf e v p
 
 /-- Size and type of a `case` statement: maximum width of the case expression and all items, signed iff
     all are signed. -/
